@@ -117,6 +117,11 @@ def proxy_recovery(job):
         time.sleep(0.6 if k < 0 else 0)          # the stalled replies of the first exchange arrive now
         second, res["second_exc"] = do_poll(["C_3[0-1]", "A[0-2]"])
         res["second"] = list(reversed(second)) if second is not None else None
+        res["gateway_after_second"] = via.gateway is not None
+        if second is None and res["first"] is not None:
+            # the fault fell into the second exchange (offset beyond the first poll's replies): that poll fails, the third recovers
+            time.sleep(0.6 if k < 0 else 0)
+            res["third"], res["third_exc"] = do_poll(["A[0-2]", "C_3[0-1]"])
         res["connections"] = relay.conns
         via.close_gateway()
     finally:
@@ -182,14 +187,18 @@ def main(ctx):
     for r in core.pmap(proxy_recovery, pj, chunksize=1):
         ev.case(key=("proxy", r["k"], r["depth"]), nontrivial=True)
         want = [[1, 2, 3], [4, 5]]
-        ok = r["second"] == want and (r["first"] in (None, want) or r["first_exc"])
-        if r["first"] is not None and r["first"] != want:
+        # every poll returns the right values or raises; the fault is injected once, on the first connection: exactly one poll may
+        # fail, the poll after it reconnects (failed connection discarded) and returns its own values
+        polls = [(r["first"], r["gateway_after_failure"]), (r["second"], r["gateway_after_second"])] + ([(r["third"], False)] if "third" in r else [])
+        ok = all(v is None or v == want for v, _ in polls) and polls[-1][0] == want
+        fails = sum(1 for v, _ in polls if v is None)
+        if fails > 1 or r["connections"] != 1 + fails:
             ok = False
-        if r["first"] is None and (r["gateway_after_failure"] or r["connections"] != 2):
-            ok = False                       # the failed connection must be discarded, the next use reconnects
+        if any(v is None and kept for v, kept in polls):
+            ok = False                       # the failed connection must be discarded
         if not ok:
-            ctx.violation("proxy_recovery", {"proxy": r}, what="proxy after a cut at %d (depth %d): first %s (%s), second %s (%s), gateway kept %s, connections %s" % (
-                r["k"], r["depth"], r["first"], r["first_exc"], r["second"], r["second_exc"], r["gateway_after_failure"], r["connections"]))
+            ctx.violation("proxy_recovery", {"proxy": r}, what="proxy after a cut at %d (depth %d): first %s (%s), second %s (%s), third %s (%s), gateway kept %s, connections %s" % (
+                r["k"], r["depth"], r["first"], r["first_exc"], r["second"], r["second_exc"], r.get("third"), r.get("third_exc"), r["gateway_after_failure"], r["connections"]))
     ev.extra.update({"runs": len(lines), "proxy_recovery_cases": len(pj)})
 
 
